@@ -60,6 +60,18 @@ META = {
         "must give the same acceptance, error class, forwarded bytes and accessors as the single-key (or no-key) baseline, for the first hello and for hello -> HRR -> retried hello." + HELD,
         "Baselines come from the same run; three (thirty in thorough) target offers.",
         "runtime monitor: metamorphic equality against in-run baselines over enumerated key lists"),
+    "C10": M("exploration", "§6 C10",
+        "Produces (does not enumerate) the schedules of NewConn's context watcher: GOMAXPROCS 1..16 x hello already buffered / delivered late / in two halves x context cancelled immediately after the return, after a yield, by a racing goroutine, "
+        "by deadline expiry or never x background load; a transport tap logs every SetDeadline and a context wrapper logs when the watcher first evaluates ctx.Done(), both on one sequence counter; after quiescence the Conn must still read and write. "
+        "A second stage in virtual time (testing/synctest) checks that a blocked NewConn fails at exactly the instant its context ends, for every 7th stall offset." + HELD,
+        "Only schedules the Go runtime produced; the evidence reports how many trials had the watcher scheduled after NewConn's work was done and the context had ended (late_watcher_* counters, floor 200).",
+        "runtime monitor: sequence-numbered transport/context taps under scheduler stress (GOMAXPROCS sweep) + virtual-time promptness check"),
+    "C17": M("exploration", "§6 C17",
+        "Runs Dial against generated DNS universes served by a fake DoH server with a recording DialFunc that returns scripted outcomes (ok, error, ECH rejection with/without retry configs, repeated rejection); an oracle over the invocation log checks: "
+        "no attempt without an ECH list under RequireECH, caller list/ServerName never replaced, list provenance per HTTPS record (computed from the zone model, not from the code under test), ServerName = the caller's host, exactly one retry "
+        "to the same address with exactly the retry configs, no leak of a retry list to later targets, caller's tls.Config unchanged." + HELD,
+        "Lenient where the statement is silent (tied priorities, target order, empty non-nil list only counted).",
+        "runtime monitor: DialFunc argument tap + provenance oracle against a zone model"),
     "C11": M("exploration", "§6 C11",
         "Runs the real codec on seed-determined specs covering all ids, every public-name length 1..255, key lengths and suite lists; an independent section-4 parser and live crypto/tls client/server ECH handshakes act as oracles; "
         "every strict prefix and single-byte mutation of sampled encodings goes through the parser under a panic guard." + HELD,
